@@ -35,6 +35,7 @@ func buildVC(P *Program, fn *ssa.Function, con *Contract) (*Exec, *VC) {
 	vc.pureNames = map[string]string{}
 	if con != nil {
 		ex.safety = con.Safety
+		ex.overflow = con.Overflow
 	}
 	ex.lockDiscipline()
 	func() {
